@@ -359,6 +359,11 @@ fn run_cmd(a: &[String]) -> i32 {
         }
     }
     let _ = std::fs::remove_dir_all(&tmp);
+    for (k, v) in &counters {
+        if k.ends_with(":case_timeouts") && *v > 0 {
+            inconclusive.push(format!("{} case(s) of {} were killed after the per-case time limit (CPU-bound without end)", v, k.trim_end_matches(":case_timeouts")));
+        }
+    }
 
     // ---- 4. failures -> replay files ----
     for f in &failures {
@@ -470,9 +475,9 @@ fn seeds(dir: &str) {
     for (i, enc) in [0u8, 1, 2, 3].iter().enumerate() {
         let req = PReq {
             series: vec![
-                PSeries { name: 0, labels: vec![(0, 0), (1, 3)], samples: vec![(0, 1), (1, 3), (3, 9)] },
-                PSeries { name: 1, labels: vec![(2, 1)], samples: vec![(2, 12), (0, 6)] },
-                PSeries { name: 2, labels: vec![], samples: vec![] },
+                PSeries { name: 0, labels: vec![(0, 0), (1, 3)], samples: vec![(0, 1), (1, 3), (3, 9)], name_pos: 0 },
+                PSeries { name: 1, labels: vec![(2, 1)], samples: vec![(2, 12), (0, 6)], name_pos: 0 },
+                PSeries { name: 2, labels: vec![], samples: vec![], name_pos: 0 },
             ],
             enc: *enc,
             colliding_labels: false,
